@@ -532,9 +532,17 @@ func run(r *hk.Run) {
 		desc := map[string]interface{}{"input": cl, "observed": res.Obs}
 		r.Add(hk.Case{Coq: coqCase(cl, res.Obs), Desc: desc}, string(key), nontrivial)
 		r.Count("server:" + cl.Spec.Name)
+		if cl.Life != "" {
+			r.Count("life:" + cl.Life)
+		} else {
+			r.Count("life:(" + strings.SplitN(cl.Shape, "-f", 2)[0] + ")")
+		}
 		for _, o := range res.Obs {
 			if o.Kind == "req" {
 				r.Count("outcome:" + o.Outcome)
+			}
+			if o.Kind == "fork" {
+				r.Count("fork-outcome:" + o.Outcome)
 			}
 		}
 		if res.Unstable {
